@@ -10,6 +10,7 @@ RULE = ("start values drawn around 0, the wrap (65530..65535) and uniformly; k a
         "MQTT_ERR_QUEUE_SIZE and leave the message store unchanged; threaded allocation checked for distinctness. "
         "non-trivial = sequence crosses the 65535->1 wrap or hits an outstanding id")
 GENERATED_ITEMS = ["_mid_generate"]
+EXTRACT_TAGS = ["mid"]
 ASSUMPTIONS = ["threading.Lock gives mutual exclusion (C14.3 is the lock invariant of model M5; the threaded run here is a test)"]
 
 
@@ -55,7 +56,7 @@ def run(ctx, out):
         c = impl.make_client()
         c._last_mid = st
         impl_out.append([c._mid_generate() for _ in range(k)])
-    mod_out = model.run_batch(1, [[st, k] for st, k in cases])
+    mod_out = model.run_batch("mid", 1, [[st, k] for st, k in cases])
     for (st, k), a, b in zip(cases, impl_out, mod_out):
         out.cases += 1
         out.validated += 1
@@ -77,7 +78,7 @@ def run(ctx, out):
     for st in [0, 65533, 65534, 65535] + [rng.randrange(0, 65536) for _ in range(ctx.n(10, 100))]:
         kinds = [rng.randrange(4) for _ in range(rng.choice([3, 6, 12]))]
         api_cases.append((st, kinds))
-    mod = model.run_batch(1, [[st, len(k)] for st, k in api_cases])
+    mod = model.run_batch("mid", 1, [[st, len(k)] for st, k in api_cases])
     for (st, kinds), m in zip(api_cases, mod):
         a = api_seq(st, kinds)
         out.cases += 1
